@@ -64,6 +64,30 @@ PROPS = {
     },
 }
 
+# bounded Kani harnesses run as counterexample finders when a Verus unit is undecided on the tree under check
+_DNA_FALLBACK = [("dna_string::verif::d_get_kmer_b_k64", "get_kmer Kmer64 on a 96-base string"),
+                 ("dna_string::verif::d_get_kmer_b_k48", "get_kmer Kmer48 on a 96-base string"),
+                 ("dna_string::verif::d_get_kmer_b_k32", "get_kmer Kmer32 on a 96-base string"),
+                 ("dna_string::verif::d_get_kmer_b_k20", "get_kmer Kmer20 on a 96-base string"),
+                 ("dna_string::verif::d_get_kmer_b_k5", "get_kmer Kmer5 on a 96-base string"),
+                 ("dna_string::verif::d_blank_b_0", "blank(0) + extend"),
+                 ("dna_string::verif::d_blank_b_32", "blank(32) + extend"),
+                 ("dna_string::verif::d_blank_b_33", "blank(33) + extend"),
+                 ("dna_string::verif::d_extend_b_0_33", "extend: empty prefix + 33 items"),
+                 ("dna_string::verif::d_extend_b_32_1", "extend: 32-base prefix + 1 item"),
+                 ("dna_string::verif::d_packed_add_b", "PackedDnaStringSet add/get")]
+_SLICE_FALLBACK = _DNA_FALLBACK + [("dna_string::verif::d_slice_hamming_1024", "hamming_dist length 1024"),
+                                   ("dna_string::verif::d_slice_render_3", "Display/Debug 3 bases")]
+UNIT_FALLBACK = {
+    "dnastring": _DNA_FALLBACK,
+    "packedset": _DNA_FALLBACK,
+    "dnaslice": _SLICE_FALLBACK,
+    "nodeiter": _SLICE_FALLBACK + [("graph::verif::g_node_iter_seq", "3 calls next()/nth(n<=9) on a 9-base node")],
+    "scan": [("msp::verif::m_scan_p2_k2m5", "P = Kmer2, k = 2, m = 5")],
+    "graphfn": _SLICE_FALLBACK,
+    "compgraph": _SLICE_FALLBACK,
+}
+
 def lmer(fams, tier, ks=None):
     ns = [1, 2, 3, 4, 5, 6] if tier == "thorough" else [1, 2, 3]
     out = []
@@ -106,9 +130,10 @@ PROPS["C13"] = {
     "kani": lambda tier: kfam(["k_from_bytes", "k_from_ascii", "k_set_slice_mut", "k_extend_right", "k_empty", "k_len"], tier)
         + lmer(["l_from_slice"], tier, LMER_KS_ALL if tier == "thorough" else LMER_KS_QUICK),
     "verus": [("dnastring", r"^DnaString::(get_kmer|addr|get|get_by_addr)$"), ("dnaslice", r"^DnaStringSlice::(get_kmer|get|rc)$"), ("kmeriter", None)],
-    "bounded": lambda tier: [],
+    "bounded": lambda tier: [("verif::kmers::%s::k_kmers_from" % t, "kmers_from_bytes/ascii on exactly K+3 bases") for t in (["kmer32", "kmer20", "kmer5"] if tier == "quick" else ALL_TYPES)]
+        + ([(h, b) for h, b in _DNA_FALLBACK if "get_kmer" in h] if tier == "thorough" else []),
     "design_ref": "DESIGN.md §6 C13",
-    "undecided": ["Kmer::kmers_from_bytes / kmers_from_ascii (iterator adapters take/skip/enumerate): not under contract yet",
+    "undecided": ["Kmer::kmers_from_bytes / kmers_from_ascii (iterator adapters take/skip/enumerate): fixed-length bounded stand-in only",
                   "iterator totals (exactly max(0,n-K+1) items) follow from the per-call next() contracts by induction over calls; the induction is a meta-argument, each step is a discharged obligation"],
     "trust": VERUS_TRUST + [SEAM_NOTE],
     "level_text": "get_kmer of the growable string, of forward and reverse-complemented slices at every offset, and of Lmer for each capacity is proved equal to the k-mer built from bases i..i+K (Verus unbounded with loop invariants across 32-base block boundaries; Kani complete per capacity); KmerIter/KmerExtsIter::next and the Vmer first/last/term accessors are proved against the window spec for any container and k-mer type satisfying the trait contract, incl. that boundary extensions are used only at the two ends.",
@@ -124,6 +149,8 @@ PROPS["C14"] = {
                              ("dna_string::verif::d_rc_reverse_b_33", "rc / reverse: 33 bases"),
                              ("dna_string::verif::d_to_bytes_b_33", "to_bytes / to_ascii_vec: 33 bases"),
                              ("dna_string::verif::d_packed_add_b", "PackedDnaStringSet::add x2 (5 and 3 bases) then get"),
+                             ("dna_string::verif::d_blank_b_32", "blank(32) vs pushes, then extend"),
+                             ("dna_string::verif::d_blank_b_0", "blank(0) vs new, then extend"),
                              ("dna_string::verif::d_dna_eq_ord_hash_b1", "derived ==/cmp on strings of <= 32 bases")]
         + ([("dna_string::verif::d_dna_eq_ord_hash_b2", "derived ==/cmp/Hash on strings of <= 64 bases (2 words)")] if tier == "thorough" else []),
     "design_ref": "DESIGN.md §6 C14",
@@ -192,7 +219,7 @@ PROPS["C07"] = {
     "title": "Minimizer partition covers every k-mer exactly once with a true minimizer",
     "kani": lambda tier: kfam(["k_extend_right", "k_len"], tier, 2, 8),
     "verus": [("scan", None)],
-    "bounded": lambda tier: [("msp::verif::m_scan_p2_k3m6", "P = Kmer2, k = 3, m = 6, score table values in 0..2")] if tier == "thorough" else [],
+    "bounded": lambda tier: [("msp::verif::m_scan_p2_k2m5", "P = Kmer2, k = 2, m = 5, score table values in 0..2")] if tier == "thorough" else [],
     "design_ref": "DESIGN.md §6 C07",
     "undecided": [],
     "trust": VERUS_TRUST + [SEAM_NOTE,
@@ -250,12 +277,12 @@ PROPS["C05"] = {
     "kani": lambda tier: ["filter::verif::%s::f_bucket" % t for t in (ALL_TYPES if tier == "thorough" else QUICK_TYPES) if K_OF[t] >= 4]
         + kfam(["k_canon", "k_min_rc"], tier, 4) + exts(["x_rc", "x_add", "x_merge", "x_mk"]),
     "verus": [("passplan", None), ("obskernel", None), ("kmeriter", r"^KmerExtsIter::next$|^Vmer::iter_kmer_exts$")],
-    "bounded": lambda tier: [("filter::verif::f_count_filter", "<= 6 observations")]
-        + ([("filter::verif::f_count_filter_set", "<= 3 observations, u8 labels")] if tier == "thorough" else []),
+    "bounded": lambda tier: [("filter::verif::f_count_filter", "<= 6 observations")],
     "design_ref": "DESIGN.md §6 C05",
     "undecided": [
         "the grouping step (per-bucket sort_by_key + itertools group_by + one summarize call per group + BoomHashMap2::new): iterator-adapter / third-party code neither verifier reaches, so 'each distinct k-mer summarised exactly once over exactly its observations in input order' is decided only up to 'every observation is recorded exactly once, under its canonical key, in that key's bucket, in the one pass that owns the bucket' (obskernel + passplan); the stable sort / group_by / summarize composition is NOT decided",
-        "the two outer loops (over passes and reads) are not under contract; the payload `d.clone()` is unspecified"],
+        "the two outer loops (over passes and reads) are not under contract; the payload `d.clone()` is unspecified",
+        "CountFilterSet::summarize (Vec sort + dedup) is intractable for CBMC even at 3 observations (12 GB, > 40 min): not decided"],
     "trust": VERUS_TRUST + [SEAM_NOTE, "R15: the pass-planning statement range of filter_kmers is verified inside a wrapper function of (kmer_mem, max_mem); max_mem > 0, kmer_mem < usize::MAX"],
     "level_text": "Decided parts: (1) pass planning - the real statement range of filter_kmers is proved to produce between 1 and 256 non-empty consecutive bucket ranges starting at 0 whose last one reaches 256, and a lemma shows every bucket 0..255 falls in exactly one pass under the half-open test, for every memory budget (Verus, unbounded); (2) bucket() is the rank of the first four bases, < 256 and monotone in k-mer order, for all k-mer values (Kani, complete); (3) per-observation canonicalisation with extension flip (Kani, complete) and the REAL body of the innermost observation loop of filter_kmers (rule R15, loop-body variant): each observation is pushed exactly once, under its canonical key, into bucket(key), iff that bucket belongs to the current pass, with extensions reverse-complemented exactly when the key is the opposite strand, and no other bucket is touched (Verus, unbounded); (4) the k-mer-with-extensions iterator pairs each k-mer with its true flanks and uses boundary extensions only at the ends (Verus, unbounded).",
     "level_note": "Partial claim: the grouping kernel is undecided (see undecided_clauses). Summarizers are bounded stand-ins only.",
@@ -306,31 +333,7 @@ PAIRED_KANI = {
     "verus:dnaslice::DnaStringSlice::fmt_display": "dna_string::verif::d_slice_render_3",
     "verus:nodeiter::NodeKmerIter::nth": "graph::verif::g_node_iter_seq",
     "verus:nodeiter::NodeKmerIter::next": "graph::verif::g_node_iter_seq",
-    "verus:scan::Scanner::scan": "msp::verif::m_scan_p2_k3m6",
-}
-
-# bounded Kani harnesses run as counterexample finders when a Verus unit is undecided on the tree under check
-_DNA_FALLBACK = [("dna_string::verif::d_get_kmer_b_k64", "get_kmer Kmer64 on a 96-base string"),
-                 ("dna_string::verif::d_get_kmer_b_k48", "get_kmer Kmer48 on a 96-base string"),
-                 ("dna_string::verif::d_get_kmer_b_k32", "get_kmer Kmer32 on a 96-base string"),
-                 ("dna_string::verif::d_get_kmer_b_k20", "get_kmer Kmer20 on a 96-base string"),
-                 ("dna_string::verif::d_get_kmer_b_k5", "get_kmer Kmer5 on a 96-base string"),
-                 ("dna_string::verif::d_blank_b_0", "blank(0) + extend"),
-                 ("dna_string::verif::d_blank_b_32", "blank(32) + extend"),
-                 ("dna_string::verif::d_blank_b_33", "blank(33) + extend"),
-                 ("dna_string::verif::d_extend_b_0_33", "extend: empty prefix + 33 items"),
-                 ("dna_string::verif::d_extend_b_32_1", "extend: 32-base prefix + 1 item"),
-                 ("dna_string::verif::d_packed_add_b", "PackedDnaStringSet add/get")]
-_SLICE_FALLBACK = _DNA_FALLBACK + [("dna_string::verif::d_slice_hamming_1024", "hamming_dist length 1024"),
-                                   ("dna_string::verif::d_slice_render_3", "Display/Debug 3 bases")]
-UNIT_FALLBACK = {
-    "dnastring": _DNA_FALLBACK,
-    "packedset": _DNA_FALLBACK,
-    "dnaslice": _SLICE_FALLBACK,
-    "nodeiter": _SLICE_FALLBACK + [("graph::verif::g_node_iter_seq", "3 calls next()/nth(n<=9) on a 9-base node")],
-    "scan": [("msp::verif::m_scan_p2_k3m6", "P = Kmer2, k = 3, m = 6"), ("msp::verif::m_scan_p2_k2m5", "P = Kmer2, k = 2, m = 5")],
-    "graphfn": _SLICE_FALLBACK,
-    "compgraph": _SLICE_FALLBACK,
+    "verus:scan::Scanner::scan": "msp::verif::m_scan_p2_k2m5",
 }
 
 COMMON_TRUST = [
